@@ -44,7 +44,7 @@ type c17Case struct {
 var c17TreeCfg = h.TreeCfg{
 	MaxEntries: 12, MaxDepth: 3, Names: []string{"a", "b", "c", "ab", "a-b", "é", "日本", "x y", "d", "sub", ".hidden", "..data", "..."},
 	Kinds:  []h.Kind{h.KFile, h.KFile, h.KFile, h.KSymlink, h.KFifo, h.KChar, h.KBlock},
-	Xattrs: true, XattrNS: []string{"user.", "trusted."}, Hardlinks: true, SpecialLinks: true, BigFiles: true, LongNames: true, BigXattrs: true,
+	Xattrs: true, XattrNS: []string{"user.", "trusted."}, Hardlinks: true, SpecialLinks: true, BigFiles: true, LongNames: true, BigXattrs: true, BadUTF8: true,
 	SymTargets: []string{"a", "../b", "/abs/target", "dangling", strings.Repeat("t", 120)}, UncleanTargets: true,
 }
 
